@@ -281,7 +281,7 @@ def gen_argv(rng, helpers_spec, tier):
     for name, (gt, pre) in gcmd.items():
         for g in GRAPH_OK[gt]:
             out.append([name] + pre + g)
-        for g in rng.sample(GRAPH_BAD, 4 if tier == "quick" else len(GRAPH_BAD)):
+        for g in rng.sample(GRAPH_BAD, 3 if tier == "quick" else len(GRAPH_BAD)):
             out.append([name] + pre + g)
         # unreadable input / unwritable output, for every kind of graph argument (always)
         for g in (["kthlist", "/"], ["/.gml"], ["dimacs", "/nonexistent-dir/g"], GRAPH_OK[gt][0] + ["save", "kthlist", "/"],
@@ -294,7 +294,7 @@ def gen_argv(rng, helpers_spec, tier):
     odd = odd_graph_files()
     gcmd2 = dict(gcmd, op=("simple", []), tseitin=("simple", ["random"]), subsetcard=("bipartite", []))
     for name, (gt, pre) in gcmd2.items():
-        paths = odd[gt] if tier != "quick" else rng.sample(odd[gt], 5)
+        paths = odd[gt] if tier != "quick" else rng.sample(odd[gt], 3)
         for pth in paths:
             out.append([name] + pre + [pth])
         out.append([name] + pre + [{"simple": "kthlist", "dag": "kthlist", "bipartite": "matrix"}[gt], odd[gt][0]])
@@ -346,7 +346,7 @@ def cases(ctx):
         for tool in ("cnfgen", "pbgen"):
             if tool == "pbgen" and "-T" in argv:
                 continue
-            if tool == "pbgen" and tier == "quick" and rng.random() > 0.2:
+            if tool == "pbgen" and tier == "quick" and rng.random() > 0.12:
                 continue
             out.append(argv_case({"tool": tool, "argv": argv}))
     # mutational fuzz: valid command lines with one or two random edits (token deleted / duplicated / inserted /
@@ -358,7 +358,7 @@ def cases(ctx):
                   ["--seed", "3", "randkcnf", "3", "5", "4", "-T", "lift", "2"], ["op", "4", "--total", "-T", "or", "2"],
                   ["peb", "pyramid", "2", "-T", "xorcomp", "3", "2"], ["-of", "opb", "--varnames", "count", "4", "2"],
                   ["subgraph", "-G", "complete", "4", "-H", "complete", "2"], ["stone", "2", "path", "3", "--sparse", "1"]]
-    for _ in range(90 if tier == "quick" else 4000):
+    for _ in range(70 if tier == "quick" else 4000):
         a = list(rng.choice(seeds_argv))
         for _e in range(rng.choice([1, 1, 2])):
             k = rng.randrange(4)
